@@ -17,6 +17,10 @@ import Rooc.Proofs.RatInst
 import Rooc.Proofs.Compose
 import Rooc.Proofs.ComposeExamples
 import Rooc.Proofs.ComposeE2EExamples
+import Rooc.Proofs.LinDExamples2
+import Rooc.Proofs.ComposeWF
+import Rooc.Proofs.ComposeSolver
+import Rooc.Proofs.ComposeSolverExamples
 namespace Rooc.Props.C03
 open Rooc Rooc.Sem Rooc.Ref Rooc.Exp
 
@@ -345,7 +349,7 @@ end examples
 
 `Compile.linearize m tol maxSteps` is the whole of `Linearizer::linearize` (normalise → bound inference → enforceable
 → apply_to_domain → lowering).  C01 (`c01_compile_partial`) and C02 (`c02_compile_partial`) say what its output `lm`
-means; here they are composed with an ABSTRACT solver contract (`Rooc/Proofs/ComposeContract.lean`; composition lemmas in
+means (`c01_compile_logic_partial` / `c02_compile_logic_partial` for models with logic); here they are composed with an ABSTRACT solver contract (`Rooc/Proofs/ComposeContract.lean`; composition lemmas in
 `Rooc/Proofs/Compose.lean`):
 
 * `LinOptimal lm ρ'` — `ρ'` satisfies every row and domain of `lm` and no such point has a strictly better linear
@@ -356,39 +360,41 @@ These contracts are the ONLY assumption about the solver (they are what C05's ce
 instance for microlp / Clarabel, and what `slow_simplex_optimal_exact` in `Props/C05.lean` proves for the built-in
 simplex at exact arithmetic).  Nothing is assumed about HOW a solver finds its answer.
 
-`_partial`: the theorems inherit the region of C01/C02's end-to-end statements — `FragModel true m m.domain`
-(piecewise-linear objective and comparisons over declared, used variables, defined everywhere; no logic values or
-bare assertions), `DeclOK m.domain` (decidable well-formedness of the declarations) and a tolerance `0 ≤ t < 1` (or no
-`IntegerRange` variable at all) — since fix b9d407a the integer ranges `apply_to_domain` publishes stay inside the box
-the lowering prunes with (`Rooc.LinP.enforceable_int_ranges_in_box`).  The excluded region is witnessed by
-`Rooc.Props.C01.c01_defined_counterexample` (definedness) and, for what the unrounded integer box allowed before the
-repair, `Rooc.Props.C01.c01_int_tolerance_counterexample`. -/
+`_logic_partial` (the general statements): the theorems inherit the region of C01/C02's end-to-end statements for
+models with logic — `LogicModel m m.domain` (the semantic contract: objective and constraint sides mention declared used
+variables only, have finite literals, and at every assignment satisfying the declared domains are defined with 0/1-valued
+`and`/`or` operands; logic as value AND bare assertions are covered), `AssertShape m` (a bare assertion is stored as
+`lhs = 1`), `DeclOK m.domain` (decidable well-formedness of the declarations) and a tolerance `0 ≤ t < 1` (or no
+`IntegerRange` variable).  This is every model on which compilation succeeds under the contract; the excluded region is
+witnessed by `Rooc.Props.C01.c01_logic_counterexample` (an `and`/`or` operand that is not 0/1-valued: C10's known finding)
+and `Rooc.Props.C01.c01_defined_counterexample` (a side undefined at an assignment satisfying the domains).
+`_partial` (without `logic`): the same for the piecewise-linear fragment `FragModel`, as corollaries. -/
 section Composition
 open Rooc.LinP Rooc.Compose
 
 /-- what C01 + C02 establish, as one fact (`Compose.CompilesTo`: direction kept, source objective defined
-everywhere, feasible sets related by auxiliary extension, linear objective bounded by and attaining the source
+at every satisfying assignment, feasible sets related by auxiliary extension, linear objective bounded by and attaining the source
 objective over the extensions). -/
-theorem c03_compilesTo_partial {m : Model (Ext K)} {t : K} (ht : 0 ≤ t) {maxSteps : Nat} {lm : LinModel (Ext K)}
+theorem c03_compilesTo_logic_partial {m : Model (Ext K)} {t : K} (ht : 0 ≤ t) {maxSteps : Nat} {lm : LinModel (Ext K)}
     (h : Compile.linearize m (.fin t) maxSteps = .ok lm)
-    (hm : FragModel true m m.domain) (hok : DeclOK m.domain)
+    (hm : LogicModel m m.domain) (hsh : AssertShape m) (hok : DeclOK m.domain)
     (ht1 : t < 1 ∨ NoIntegerVars m.domain) :
     CompilesTo m lm :=
-  compilesTo_of_compile ht h hm hok ht1
+  compilesTo_of_compile_logic ht h hm hsh hok ht1
 
 /-- **the solver's optimum of the compiled model, read on the declared variables, is an optimum of the source with
 the same value**: `ρ'` itself (auxiliaries are simply extra names) satisfies the source model, the source objective
 at `ρ'` IS the linear objective at `ρ'` (offset included), and no assignment satisfying the source has a strictly
 better objective. -/
-theorem c03_compile_optimal_partial {m : Model (Ext K)} {t : K} (ht : 0 ≤ t) {maxSteps : Nat} {lm : LinModel (Ext K)}
+theorem c03_compile_optimal_logic_partial {m : Model (Ext K)} {t : K} (ht : 0 ≤ t) {maxSteps : Nat} {lm : LinModel (Ext K)}
     (h : Compile.linearize m (.fin t) maxSteps = .ok lm)
-    (hm : FragModel true m m.domain) (hok : DeclOK m.domain)
+    (hm : LogicModel m m.domain) (hsh : AssertShape m) (hok : DeclOK m.domain)
     (ht1 : t < 1 ∨ NoIntegerVars m.domain)
     {ρ' : String → K} (ho : LinOptimal lm ρ') :
     srcFeasible m ρ' = true ∧ eval ρ' m.objective = linObjective lm ρ' ∧ (eval ρ' m.objective).isSome = true ∧
     ∀ ρ : String → K, srcFeasible m ρ = true → ∀ u v, eval ρ m.objective = some u →
       eval ρ' m.objective = some v → better m.optType u v = false := by
-  obtain ⟨v, hopt, hw⟩ := optimal_transfer (compilesTo_of_compile ht h hm hok ht1) ho
+  obtain ⟨v, hopt, hw⟩ := optimal_transfer (compilesTo_of_compile_logic ht h hm hsh hok ht1) ho
   refine ⟨hopt.feasible, by rw [hopt.value, hw], by rw [hopt.value]; rfl, ?_⟩
   intro ρ hs u v' hu hv'
   rw [hopt.value] at hv'; cases hv'
@@ -397,6 +403,125 @@ theorem c03_compile_optimal_partial {m : Model (Ext K)} {t : K} (ht : 0 ≤ t) {
 /-- conversely **every optimum of the source extends, on the compiler's auxiliaries only, to a point satisfying the
 solver contract, with the same value** — so `LinOptimal` is satisfiable exactly when the source has an optimum, and
 a solver that answers `LinOptimal` cannot report a value different from the source optimum. -/
+theorem c03_compile_optimal_complete_logic_partial {m : Model (Ext K)} {t : K} (ht : 0 ≤ t) {maxSteps : Nat}
+    {lm : LinModel (Ext K)} (h : Compile.linearize m (.fin t) maxSteps = .ok lm)
+    (hm : LogicModel m m.domain) (hsh : AssertShape m) (hok : DeclOK m.domain)
+    (ht1 : t < 1 ∨ NoIntegerVars m.domain)
+    {ρ : String → K} {v : K} (hs : srcFeasible m ρ = true) (hv : eval ρ m.objective = some v)
+    (hbest : ∀ ρ₂ : String → K, srcFeasible m ρ₂ = true → ∀ u, eval ρ₂ m.objective = some u →
+      better m.optType u v = false) :
+    ∃ ρ' : String → K, (∀ x, inScope m.domain x → ρ' x = ρ x) ∧ LinOptimal lm ρ' ∧ linObjective lm ρ' = some v :=
+  optimal_complete (compilesTo_of_compile_logic ht h hm hsh hok ht1) ⟨hs, hv, hbest⟩
+
+/-- **`infeasible` is right in both directions**: the compiled model has no point iff NO assignment satisfies the
+source. -/
+theorem c03_compile_infeasible_logic_partial {m : Model (Ext K)} {t : K} (ht : 0 ≤ t) {maxSteps : Nat} {lm : LinModel (Ext K)}
+    (h : Compile.linearize m (.fin t) maxSteps = .ok lm)
+    (hm : LogicModel m m.domain) (hsh : AssertShape m) (hok : DeclOK m.domain)
+    (ht1 : t < 1 ∨ NoIntegerVars m.domain) :
+    LinInfeasible lm ↔ ∀ ρ : String → K, srcFeasible m ρ = false :=
+  infeasible_iff (compilesTo_of_compile_logic ht h hm hsh hok ht1)
+
+/-- **`unbounded` is right in both directions**: the compiled model has points with linear objective beyond every
+bound (in the model's direction) iff the source has satisfying assignments with objective beyond every bound. -/
+theorem c03_compile_unbounded_logic_partial {m : Model (Ext K)} {t : K} (ht : 0 ≤ t) {maxSteps : Nat} {lm : LinModel (Ext K)}
+    (h : Compile.linearize m (.fin t) maxSteps = .ok lm)
+    (hm : LogicModel m m.domain) (hsh : AssertShape m) (hok : DeclOK m.domain)
+    (ht1 : t < 1 ∨ NoIntegerVars m.domain) :
+    LinUnbounded lm ↔ SrcUnbounded m :=
+  unbounded_iff (compilesTo_of_compile_logic ht h hm hsh hok ht1)
+
+/-- the reference side needs `Closed m`; under the contract it is not an extra hypothesis. -/
+theorem c03_closed_of_logicModel {m : Model (Ext K)} (hm : LogicModel m m.domain) : Closed m = true :=
+  closed_of_logicModel hm
+
+/-! ### link to the reference interpreter (enumerable declarations: Boolean / IntegerRange) -/
+
+/-- **the reference's optimum and the solver's optimum have the same value**: if `refSolve m = optimal v w` and the
+solver returns a point `ρ'` satisfying its contract on the compiled model, the linear objective at `ρ'` is `v`,
+and `ρ'` satisfies the source (the comparison `./check C03` performs per case, as a theorem). -/
+theorem c03_ref_agrees_logic_partial {m : Model (Ext K)} {t : K} (ht : 0 ≤ t) {maxSteps : Nat} {lm : LinModel (Ext K)}
+    (h : Compile.linearize m (.fin t) maxSteps = .ok lm)
+    (hm : LogicModel m m.domain) (hsh : AssertShape m) (hok : DeclOK m.domain)
+    (ht1 : t < 1 ∨ NoIntegerVars m.domain)
+    {v : K} {w : List (String × K)} (hr : refSolve m = .optimal v w) {ρ' : String → K} (ho : LinOptimal lm ρ') :
+    linObjective lm ρ' = some v ∧ srcFeasible m ρ' = true := by
+  obtain ⟨hne, hfw, hvw, hbest⟩ := refSolve_optimal_spec hr
+  obtain ⟨v', hopt, hw⟩ := optimal_transfer (compilesTo_of_compile_logic ht h hm hsh hok ht1) ho
+  have h1 := hbest (closed_of_logicModel hm) ρ' hopt.feasible v' hopt.value
+  have h2 := hopt.best (lookup w) hfw v hvw
+  rw [hw, eq_of_not_better hne h1 h2]
+  exact ⟨rfl, hopt.feasible⟩
+
+/-- the reference's optimum is attained by a point satisfying the solver contract (extension of the reference's
+witness): the hypotheses of `c03_ref_agrees_logic_partial` are never contradictory. -/
+theorem c03_ref_optimal_attained_logic_partial {m : Model (Ext K)} {t : K} (ht : 0 ≤ t) {maxSteps : Nat}
+    {lm : LinModel (Ext K)} (h : Compile.linearize m (.fin t) maxSteps = .ok lm)
+    (hm : LogicModel m m.domain) (hsh : AssertShape m) (hok : DeclOK m.domain)
+    (ht1 : t < 1 ∨ NoIntegerVars m.domain)
+    {v : K} {w : List (String × K)} (hr : refSolve m = .optimal v w) :
+    ∃ ρ' : String → K, (∀ x, inScope m.domain x → ρ' x = lookup w x) ∧ LinOptimal lm ρ' ∧
+      linObjective lm ρ' = some v := by
+  obtain ⟨_, hfw, hvw, hbest⟩ := refSolve_optimal_spec hr
+  exact optimal_complete (compilesTo_of_compile_logic ht h hm hsh hok ht1)
+    ⟨hfw, hvw, fun ρ₂ hs₂ u hu => hbest (closed_of_logicModel hm) ρ₂ hs₂ u hu⟩
+
+/-- **the reference says `infeasible` exactly when the compiled model has no point.** -/
+theorem c03_ref_infeasible_iff_logic_partial {m : Model (Ext K)} {t : K} (ht : 0 ≤ t) {maxSteps : Nat}
+    {lm : LinModel (Ext K)} (h : Compile.linearize m (.fin t) maxSteps = .ok lm)
+    (hm : LogicModel m m.domain) (hsh : AssertShape m) (hok : DeclOK m.domain)
+    (ht1 : t < 1 ∨ NoIntegerVars m.domain)
+    {asg : List (List (String × K))} (ha : assignments m.domain = some asg) :
+    refSolve m = .infeasible ↔ LinInfeasible lm := by
+  rw [refSolve_infeasible_iff ha (closed_of_logicModel hm),
+    infeasible_iff (compilesTo_of_compile_logic ht h hm hsh hok ht1)]
+
+/-- **end to end, verdict by verdict**: on an enumerable model of the fragment, a solver that honours its contract
+on the compiled model — it answers either a point with `LinOptimal` or the verdict `LinInfeasible` — agrees with the
+reference interpreter: `infeasible` ↔ `infeasible`; a point ↔ `optimal v _` with `v` the linear objective at the
+point (`min`/`max`) or `feasibleAny _` (`satisfy`). -/
+theorem c03_answer_matches_reference_logic_partial {m : Model (Ext K)} {t : K} (ht : 0 ≤ t) {maxSteps : Nat}
+    {lm : LinModel (Ext K)} (h : Compile.linearize m (.fin t) maxSteps = .ok lm)
+    (hm : LogicModel m m.domain) (hsh : AssertShape m) (hok : DeclOK m.domain)
+    (ht1 : t < 1 ∨ NoIntegerVars m.domain)
+    {asg : List (List (String × K))} (ha : assignments m.domain = some asg) :
+    (LinInfeasible lm → refSolve m = .infeasible) ∧
+    (∀ ρ' : String → K, LinOptimal lm ρ' →
+      (m.optType ≠ .satisfy → ∃ v w, refSolve m = .optimal v w ∧ linObjective lm ρ' = some v) ∧
+      (m.optType = .satisfy → ∃ w, refSolve m = .feasibleAny w)) := by
+  have hc := compilesTo_of_compile_logic ht h hm hsh hok ht1
+  have hcl := closed_of_logicModel hm
+  refine ⟨fun hi => (c03_ref_infeasible_iff_logic_partial ht h hm hsh hok ht1 ha).mpr hi, fun ρ' ho => ⟨?_, ?_⟩⟩
+  · intro hne
+    obtain ⟨v, w, hr⟩ := refSolve_optimal_complete ha hcl hne (src_of_lin hc ho.feasible)
+      (fun ρ₂ h₂ => by obtain ⟨u, hu⟩ := hc.objDefined ρ₂ h₂; rw [hu]; rfl)
+    exact ⟨v, w, hr, (c03_ref_agrees_logic_partial ht h hm hsh hok ht1 hr ho).1⟩
+  · intro hsat
+    exact refSolve_feasibleAny_complete ha hcl hsat (src_of_lin hc ho.feasible)
+
+/-! ### the piecewise-linear fragment (`FragModel`) as a special case
+
+Every `FragModel` is a `LogicModel` (`Rooc.Props.C01.logicModel_of_fragModel`) and has no bare assertion
+(`Compose.assertShape_of_fragModel`); the statements below are the corollaries, under the hypotheses of
+`c01_compile_partial`. -/
+
+theorem c03_compilesTo_partial {m : Model (Ext K)} {t : K} (ht : 0 ≤ t) {maxSteps : Nat} {lm : LinModel (Ext K)}
+    (h : Compile.linearize m (.fin t) maxSteps = .ok lm)
+    (hm : FragModel true m m.domain) (hok : DeclOK m.domain)
+    (ht1 : t < 1 ∨ NoIntegerVars m.domain) :
+    CompilesTo m lm :=
+  c03_compilesTo_logic_partial ht h (LogicModel.ofFragModel hm) (assertShape_of_fragModel hm) hok ht1
+
+theorem c03_compile_optimal_partial {m : Model (Ext K)} {t : K} (ht : 0 ≤ t) {maxSteps : Nat} {lm : LinModel (Ext K)}
+    (h : Compile.linearize m (.fin t) maxSteps = .ok lm)
+    (hm : FragModel true m m.domain) (hok : DeclOK m.domain)
+    (ht1 : t < 1 ∨ NoIntegerVars m.domain)
+    {ρ' : String → K} (ho : LinOptimal lm ρ') :
+    srcFeasible m ρ' = true ∧ eval ρ' m.objective = linObjective lm ρ' ∧ (eval ρ' m.objective).isSome = true ∧
+    ∀ ρ : String → K, srcFeasible m ρ = true → ∀ u v, eval ρ m.objective = some u →
+      eval ρ' m.objective = some v → better m.optType u v = false :=
+  c03_compile_optimal_logic_partial ht h (LogicModel.ofFragModel hm) (assertShape_of_fragModel hm) hok ht1 ho
+
 theorem c03_compile_optimal_complete_partial {m : Model (Ext K)} {t : K} (ht : 0 ≤ t) {maxSteps : Nat}
     {lm : LinModel (Ext K)} (h : Compile.linearize m (.fin t) maxSteps = .ok lm)
     (hm : FragModel true m m.domain) (hok : DeclOK m.domain)
@@ -405,75 +530,51 @@ theorem c03_compile_optimal_complete_partial {m : Model (Ext K)} {t : K} (ht : 0
     (hbest : ∀ ρ₂ : String → K, srcFeasible m ρ₂ = true → ∀ u, eval ρ₂ m.objective = some u →
       better m.optType u v = false) :
     ∃ ρ' : String → K, (∀ x, inScope m.domain x → ρ' x = ρ x) ∧ LinOptimal lm ρ' ∧ linObjective lm ρ' = some v :=
-  optimal_complete (compilesTo_of_compile ht h hm hok ht1) ⟨hs, hv, hbest⟩
+  c03_compile_optimal_complete_logic_partial ht h (LogicModel.ofFragModel hm) (assertShape_of_fragModel hm) hok ht1
+    hs hv hbest
 
-/-- **`infeasible` is right in both directions**: the compiled model has no point iff NO assignment satisfies the
-source. -/
 theorem c03_compile_infeasible_partial {m : Model (Ext K)} {t : K} (ht : 0 ≤ t) {maxSteps : Nat} {lm : LinModel (Ext K)}
     (h : Compile.linearize m (.fin t) maxSteps = .ok lm)
     (hm : FragModel true m m.domain) (hok : DeclOK m.domain)
     (ht1 : t < 1 ∨ NoIntegerVars m.domain) :
     LinInfeasible lm ↔ ∀ ρ : String → K, srcFeasible m ρ = false :=
-  infeasible_iff (compilesTo_of_compile ht h hm hok ht1)
+  c03_compile_infeasible_logic_partial ht h (LogicModel.ofFragModel hm) (assertShape_of_fragModel hm) hok ht1
 
-/-- **`unbounded` is right in both directions**: the compiled model has points with linear objective beyond every
-bound (in the model's direction) iff the source has satisfying assignments with objective beyond every bound. -/
 theorem c03_compile_unbounded_partial {m : Model (Ext K)} {t : K} (ht : 0 ≤ t) {maxSteps : Nat} {lm : LinModel (Ext K)}
     (h : Compile.linearize m (.fin t) maxSteps = .ok lm)
     (hm : FragModel true m m.domain) (hok : DeclOK m.domain)
     (ht1 : t < 1 ∨ NoIntegerVars m.domain) :
     LinUnbounded lm ↔ SrcUnbounded m :=
-  unbounded_iff (compilesTo_of_compile ht h hm hok ht1)
+  c03_compile_unbounded_logic_partial ht h (LogicModel.ofFragModel hm) (assertShape_of_fragModel hm) hok ht1
 
-/-- the reference side needs `Closed m`; on the fragment it is not an extra hypothesis. -/
 theorem c03_closed_of_fragment {m : Model (Ext K)} (hm : FragModel true m m.domain) : Closed m = true :=
   closed_of_fragModel hm
 
-/-! ### link to the reference interpreter (enumerable declarations: Boolean / IntegerRange) -/
-
-/-- **the reference's optimum and the solver's optimum have the same value**: if `refSolve m = optimal v w` and the
-solver returns a point `ρ'` satisfying its contract on the compiled model, the linear objective at `ρ'` is `v`,
-and `ρ'` satisfies the source (the comparison `./check C03` performs per case, as a theorem). -/
 theorem c03_ref_agrees_partial {m : Model (Ext K)} {t : K} (ht : 0 ≤ t) {maxSteps : Nat} {lm : LinModel (Ext K)}
     (h : Compile.linearize m (.fin t) maxSteps = .ok lm)
     (hm : FragModel true m m.domain) (hok : DeclOK m.domain)
     (ht1 : t < 1 ∨ NoIntegerVars m.domain)
     {v : K} {w : List (String × K)} (hr : refSolve m = .optimal v w) {ρ' : String → K} (ho : LinOptimal lm ρ') :
-    linObjective lm ρ' = some v ∧ srcFeasible m ρ' = true := by
-  obtain ⟨hne, hfw, hvw, hbest⟩ := refSolve_optimal_spec hr
-  obtain ⟨v', hopt, hw⟩ := optimal_transfer (compilesTo_of_compile ht h hm hok ht1) ho
-  have h1 := hbest (closed_of_fragModel hm) ρ' hopt.feasible v' hopt.value
-  have h2 := hopt.best (lookup w) hfw v hvw
-  rw [hw, eq_of_not_better hne h1 h2]
-  exact ⟨rfl, hopt.feasible⟩
+    linObjective lm ρ' = some v ∧ srcFeasible m ρ' = true :=
+  c03_ref_agrees_logic_partial ht h (LogicModel.ofFragModel hm) (assertShape_of_fragModel hm) hok ht1 hr ho
 
-/-- the reference's optimum is attained by a point satisfying the solver contract (extension of the reference's
-witness): the hypotheses of `c03_ref_agrees_partial` are never contradictory. -/
 theorem c03_ref_optimal_attained_partial {m : Model (Ext K)} {t : K} (ht : 0 ≤ t) {maxSteps : Nat}
     {lm : LinModel (Ext K)} (h : Compile.linearize m (.fin t) maxSteps = .ok lm)
     (hm : FragModel true m m.domain) (hok : DeclOK m.domain)
     (ht1 : t < 1 ∨ NoIntegerVars m.domain)
     {v : K} {w : List (String × K)} (hr : refSolve m = .optimal v w) :
     ∃ ρ' : String → K, (∀ x, inScope m.domain x → ρ' x = lookup w x) ∧ LinOptimal lm ρ' ∧
-      linObjective lm ρ' = some v := by
-  obtain ⟨_, hfw, hvw, hbest⟩ := refSolve_optimal_spec hr
-  exact optimal_complete (compilesTo_of_compile ht h hm hok ht1)
-    ⟨hfw, hvw, fun ρ₂ hs₂ u hu => hbest (closed_of_fragModel hm) ρ₂ hs₂ u hu⟩
+      linObjective lm ρ' = some v :=
+  c03_ref_optimal_attained_logic_partial ht h (LogicModel.ofFragModel hm) (assertShape_of_fragModel hm) hok ht1 hr
 
-/-- **the reference says `infeasible` exactly when the compiled model has no point.** -/
 theorem c03_ref_infeasible_iff_partial {m : Model (Ext K)} {t : K} (ht : 0 ≤ t) {maxSteps : Nat}
     {lm : LinModel (Ext K)} (h : Compile.linearize m (.fin t) maxSteps = .ok lm)
     (hm : FragModel true m m.domain) (hok : DeclOK m.domain)
     (ht1 : t < 1 ∨ NoIntegerVars m.domain)
     {asg : List (List (String × K))} (ha : assignments m.domain = some asg) :
-    refSolve m = .infeasible ↔ LinInfeasible lm := by
-  rw [refSolve_infeasible_iff ha (closed_of_fragModel hm),
-    infeasible_iff (compilesTo_of_compile ht h hm hok ht1)]
+    refSolve m = .infeasible ↔ LinInfeasible lm :=
+  c03_ref_infeasible_iff_logic_partial ht h (LogicModel.ofFragModel hm) (assertShape_of_fragModel hm) hok ht1 ha
 
-/-- **end to end, verdict by verdict**: on an enumerable model of the fragment, a solver that honours its contract
-on the compiled model — it answers either a point with `LinOptimal` or the verdict `LinInfeasible` — agrees with the
-reference interpreter: `infeasible` ↔ `infeasible`; a point ↔ `optimal v _` with `v` the linear objective at the
-point (`min`/`max`) or `feasibleAny _` (`satisfy`). -/
 theorem c03_answer_matches_reference_partial {m : Model (Ext K)} {t : K} (ht : 0 ≤ t) {maxSteps : Nat}
     {lm : LinModel (Ext K)} (h : Compile.linearize m (.fin t) maxSteps = .ok lm)
     (hm : FragModel true m m.domain) (hok : DeclOK m.domain)
@@ -482,16 +583,8 @@ theorem c03_answer_matches_reference_partial {m : Model (Ext K)} {t : K} (ht : 0
     (LinInfeasible lm → refSolve m = .infeasible) ∧
     (∀ ρ' : String → K, LinOptimal lm ρ' →
       (m.optType ≠ .satisfy → ∃ v w, refSolve m = .optimal v w ∧ linObjective lm ρ' = some v) ∧
-      (m.optType = .satisfy → ∃ w, refSolve m = .feasibleAny w)) := by
-  have hc := compilesTo_of_compile ht h hm hok ht1
-  have hcl := closed_of_fragModel hm
-  refine ⟨fun hi => (c03_ref_infeasible_iff_partial ht h hm hok ht1 ha).mpr hi, fun ρ' ho => ⟨?_, ?_⟩⟩
-  · intro hne
-    obtain ⟨v, w, hr⟩ := refSolve_optimal_complete ha hcl hne (src_of_lin hc ho.feasible)
-      (fun ρ₂ _ => by obtain ⟨u, hu⟩ := hc.objDefined ρ₂; rw [hu]; rfl)
-    exact ⟨v, w, hr, (c03_ref_agrees_partial ht h hm hok ht1 hr ho).1⟩
-  · intro hsat
-    exact refSolve_feasibleAny_complete ha hcl hsat (src_of_lin hc ho.feasible)
+      (m.optType = .satisfy → ∃ w, refSolve m = .feasibleAny w)) :=
+  c03_answer_matches_reference_logic_partial ht h (LogicModel.ofFragModel hm) (assertShape_of_fragModel hm) hok ht1 ha
 
 /-! ### non-vacuity: `min x s.t. x ≤ y`, `x, y` Boolean, through the whole pipeline (every tolerance, every step
 limit), judged by the reference at `K = ℚ` -/
@@ -524,6 +617,24 @@ example (t : ℚ) (ht : 0 ≤ t) (n : Nat) {lm : LinModel (Ext ℚ)}
   c03_ref_agrees_partial ht h exBool_frag exBool_declOK (Or.inr exBool_noInt)
     (v := 0) (w := [("x", 0), ("y", 0)]) (by rw [fieldExact_rat]; decide +kernel) ho
 
+/-- REAL LOGIC: `min a s.t. assert (a or b)`, `a, b` Boolean (`LinP.exOr`: a bare assertion of an `or`, compiled to the
+row `a + b ≥ 1`).  Every hypothesis of the `_logic_partial` theorems holds (every tolerance, step limit 0), the reference
+answers `optimal 0` at `a = 0, b = 1`, so `c03_ref_agrees_logic_partial` applies to every contract-honouring solver
+answer, and such an answer exists (`c03_ref_optimal_attained_logic_partial`). -/
+example (t : ℚ) (ht : 0 ≤ t) : ∃ (lm : LinModel (Ext ℚ)),
+    Compile.linearize (exOr : Model (Ext ℚ)) (.fin t) 0 = .ok lm ∧
+    refSolve (exOr : Model (Ext ℚ)) = .optimal 0 [("a", 0), ("b", 1)] ∧
+    (∃ ρ' : String → ℚ, LinOptimal lm ρ' ∧ linObjective lm ρ' = some 0) ∧
+    ∀ ρ' : String → ℚ, LinOptimal lm ρ' → linObjective lm ρ' = some 0 ∧ srcFeasible (exOr : Model (Ext ℚ)) ρ' = true := by
+  obtain ⟨lm, h⟩ := exOr_compile (K := ℚ) (.fin t)
+  have hr : refSolve (exOr : Model (Ext ℚ)) = .optimal 0 [("a", 0), ("b", 1)] := by
+    rw [fieldExact_rat]; decide +kernel
+  refine ⟨lm, h, hr, ?_, fun ρ' ho => ?_⟩
+  · obtain ⟨ρ', _, ho, hv⟩ := c03_ref_optimal_attained_logic_partial ht h exOr_logicModel exOr_assertShape exOr_declOK
+      (Or.inr exOr_noInt) hr
+    exact ⟨ρ', ho, hv⟩
+  · exact c03_ref_agrees_logic_partial ht h exOr_logicModel exOr_assertShape exOr_declOK (Or.inr exOr_noInt) hr ho
+
 /-- `c03_compile_infeasible_partial` is not vacuous in the other direction either: the compiled `exBool` is NOT
 infeasible. -/
 example (t : ℚ) (ht : 0 ≤ t) (n : Nat) {lm : LinModel (Ext ℚ)}
@@ -542,8 +653,9 @@ tableau loop → mapped-back point
 For the built-in simplex at exact arithmetic the solver contract is not an assumption: `Rooc.Props.C05.
 slow_simplex_linOptimal_exact` / `slow_simplex_linUnbounded_exact` (C13 ∘ C14 through the by-name/positional adapter
 `Rooc/Proofs/ComposeSem.lean`) prove it.  Composed with the theorems above this gives an end-to-end statement about
-the SOURCE model.  Hypotheses on the compiled model `lm` (all decidable on the computed `lm`; their discharge from
-C08's well-formedness theorems for continuous sources is planned): `StdSem.WF lm`, distinct names, `DomVars`, `NNOK`;
+the SOURCE model.  First with explicit hypotheses on the compiled model `lm` (`StdSem.WF lm`, distinct names, `DomVars`,
+`NNOK` — all decidable on the computed `lm`), then (`…_src_partial`) with these discharged from C08 and from the success
+of `to_standard_form`;
 and the interface `CanonicalFor T (stdK s)` (provided by `slow_simplex_direct_start_partial` for the direct start). -/
 section EndToEnd
 open Tableau TabSem StdSem StdMain Standardize ComposeSimplex ComposeSem
@@ -596,6 +708,74 @@ theorem c03_slow_simplex_infeasible_end_to_end_partial {m : Model (Ext K)} {t : 
   (c03_compile_infeasible_partial ht h hm hok ht1).mp
     (simplex_linInfeasible hW hnn hdv hs stallExtra limit prefer hp1 hneg)
 
+/-! #### the same with the hypotheses on the compiled model DISCHARGED (`Rooc/Proofs/ComposeWF.lean`)
+
+Sizes, finiteness, distinct variable names and "variables = domain keys" of `lm` come from C08's theorems
+(`vars_nodup`, `vars_eq_domain_keys`, `row_lengths`, `objective_length`, `finite_out_partial`; `FiniteLits m` follows from
+the contract); non-strict rows, a continuous domain and a direction come from the SUCCESS of `to_standard_form` on `lm`,
+which the path needs anyway.  What remains about `lm` is `ComposeWF.DomainFormat lm` — the bound format of the published
+continuous ranges (`Real(lo, hi)`: `lo ∈ {−inf} ∪ finite`, `hi ∈ {+inf} ∪ finite`; `NonNegativeReal`: `0 ≤ lo` finite) —
+for which C07/C08 have no theorem yet (see the header of `ComposeWF.lean`); it is decidable on the computed model. -/
+
+/-- **source optimum from the built-in simplex, hypotheses on the source** (plus the run itself and `DomainFormat`). -/
+theorem c03_slow_simplex_end_to_end_src_partial {m : Model (Ext K)} {t : K} (ht : 0 ≤ t) {maxSteps : Nat}
+    {lm : LinModel (Ext K)} (h : Compile.linearize m (.fin t) maxSteps = .ok lm)
+    (hm : LogicModel m m.domain) (hsh : AssertShape m) (hok : DeclOK m.domain)
+    (ht1 : t < 1 ∨ NoIntegerVars m.domain)
+    {s : StdModel (Ext K)} (hs : standardize lm = .ok s) (hfmt : ComposeWF.DomainFormat lm)
+    {T : Tab K} (hT : CanonicalFor T (stdK s)) (stallExtra limit : Nat) (prefer : List Nat)
+    (hfin : (solve (0:K) stallExtra limit prefer T).result = .ok ()) :
+    srcFeasible m (pointOf lm.vars (preimage lm (basicSolution (solve (0:K) stallExtra limit prefer T).final))) = true ∧
+    eval (pointOf lm.vars (preimage lm (basicSolution (solve (0:K) stallExtra limit prefer T).final))) m.objective =
+      some (optimalValue (solve (0:K) stallExtra limit prefer T).final) ∧
+    ∀ ρ : String → K, srcFeasible m ρ = true → ∀ u, eval ρ m.objective = some u →
+      better m.optType u (optimalValue (solve (0:K) stallExtra limit prefer T).final) = false := by
+  obtain ⟨hW, hnn, hdv, hnd⟩ := ComposeWF.compiled_wf h hok.nodup (ComposeWF.finiteLits_of_logicModel hm) hs hfmt
+  obtain ⟨ho, hv⟩ := simplex_linOptimal hW hnn hdv hnd hs hT stallExtra limit prefer hfin
+  obtain ⟨hs', he, _, hbest⟩ := c03_compile_optimal_logic_partial ht h hm hsh hok ht1 ho
+  rw [hv] at he
+  exact ⟨hs', he, fun ρ hρ u hu => hbest ρ hρ u _ hu he⟩
+
+/-- **source unboundedness from the built-in simplex, hypotheses on the source.** -/
+theorem c03_slow_simplex_unbounded_end_to_end_src_partial {m : Model (Ext K)} {t : K} (ht : 0 ≤ t) {maxSteps : Nat}
+    {lm : LinModel (Ext K)} (h : Compile.linearize m (.fin t) maxSteps = .ok lm)
+    (hm : LogicModel m m.domain) (hsh : AssertShape m) (hok : DeclOK m.domain)
+    (ht1 : t < 1 ∨ NoIntegerVars m.domain)
+    {s : StdModel (Ext K)} (hs : standardize lm = .ok s) (hfmt : ComposeWF.DomainFormat lm)
+    {T : Tab K} (hT : CanonicalFor T (stdK s)) (stallExtra limit : Nat) (prefer : List Nat)
+    (hunb : (solve (0:K) stallExtra limit prefer T).result = .error .unbounded) : SrcUnbounded m := by
+  obtain ⟨hW, hnn, hdv, hnd⟩ := ComposeWF.compiled_wf h hok.nodup (ComposeWF.finiteLits_of_logicModel hm) hs hfmt
+  exact (c03_compile_unbounded_logic_partial ht h hm hsh hok ht1).mp
+    (simplex_linUnbounded hW hnn hdv hnd hs hT stallExtra limit prefer hunb)
+
+/-- **source infeasibility from the built-in simplex, hypotheses on the source.** -/
+theorem c03_slow_simplex_infeasible_end_to_end_src_partial {m : Model (Ext K)} {t : K} (ht : 0 ≤ t) {maxSteps : Nat}
+    {lm : LinModel (Ext K)} (h : Compile.linearize m (.fin t) maxSteps = .ok lm)
+    (hm : LogicModel m m.domain) (hsh : AssertShape m) (hok : DeclOK m.domain)
+    (ht1 : t < 1 ∨ NoIntegerVars m.domain)
+    {s : StdModel (Ext K)} (hs : standardize lm = .ok s) (hfmt : ComposeWF.DomainFormat lm)
+    (stallExtra limit : Nat) (prefer : List Nat)
+    (hp1 : (solve (0:K) stallExtra limit prefer (phase1Tab (stdK s))).result = .ok ())
+    (hneg : (solve (0:K) stallExtra limit prefer (phase1Tab (stdK s))).final.value < 0) :
+    ∀ ρ : String → K, srcFeasible m ρ = false := by
+  obtain ⟨hW, hnn, hdv, _⟩ := ComposeWF.compiled_wf h hok.nodup (ComposeWF.finiteLits_of_logicModel hm) hs hfmt
+  exact (c03_compile_infeasible_logic_partial ht h hm hsh hok ht1).mp
+    (simplex_linInfeasible hW hnn hdv hs stallExtra limit prefer hp1 hneg)
+
+/-- the `_src_` form applies to `exSrc` as well: `DomainFormat exMax` is a one-line check. -/
+example (t : ℚ) (ht : 0 ≤ t) :
+    srcFeasible exSrc (pointOf ["x"] [2]) = true ∧ eval (pointOf ["x"] [2]) exSrc.objective = some 2 := by
+  have hfmt : ComposeWF.DomainFormat exMax := by
+    refine ⟨?_, ?_, exMax_nnok⟩ <;> intro d hd lo hi hty <;>
+      simp only [exMax, List.mem_singleton] at hd <;> subst hd <;> simp at hty
+    obtain ⟨rfl, rfl⟩ := hty
+    simp [StdSem.isFin]
+  have h := c03_slow_simplex_end_to_end_src_partial ht (exSrc_compile (.fin t)) (LogicModel.ofFragModel exSrc_frag)
+    (assertShape_of_fragModel exSrc_frag) exSrc_declOK (Or.inr exSrc_noInt) exMax_std hfmt
+    exTM_canonicalFor 1 10 [] exTM_solve.1
+  rw [exTM_solve.2, exTM'_preimage, exTM'_value] at h
+  exact ⟨h.1, h.2.1⟩
+
 /-- non-vacuity (`K = ℚ`, every tolerance `t ≥ 0`, step limit 0): `max x s.t. c: x ≤ 2`, `x` NonNegativeReal.  Every
 hypothesis of `c03_slow_simplex_end_to_end_partial` holds JOINTLY — the pipeline returns `exMax`, its standard form is
 `exMaxStd`, `exTM` is canonical for it, the loop stops `Finished` — and the conclusion reads: `x = 2` satisfies the
@@ -612,6 +792,86 @@ example (t : ℚ) (ht : 0 ≤ t) :
   simpa [exSrc, better_max] using this
 
 end EndToEnd
+
+/-! ### the default solver path: property C03 as stated, with microlp as the recorded assumption
+
+`Compose.oneShot solver m t maxSteps` is the one-shot pipeline after parsing (`Compile.linearize`, then `auto_solver`
+= `SolverWrap.wrapAuto` around the external solver's raw answer `solver lm`); `Compose.SolverSpec lm out`
+(`Rooc/Proofs/ComposeSolver.lean`) is the ASSUMPTION about microlp, stated on rooc's returned `LpSolution` after its own
+read-back: a solution labelled `Optimal` satisfies `LinOptimal` at `assignmentOf sol` and reports the linear objective
+there; `Err Infeasible` only when `LinInfeasible`.  It is an explicit hypothesis, not an axiom, and it is what
+C05's certified comparison / C04's certificate check validate per generated instance.  Under it, on every enumerable
+model that compiles under the contract, the pipeline's answer is the reference interpreter's verdict. -/
+section DefaultSolver
+open Rooc.SolverWrap (MlpOutcome Solution Res wrapAuto)
+
+/-- **property C03 for the default solver** (`_logic_partial`: the region of `c01_compile_logic_partial`): a returned
+solution satisfies the source model, its reported value is the optimum the reference computes (`min`/`max`) — or the
+reference finds a witness too (`satisfy`) —, and `Infeasible` is answered only when the reference says `infeasible`,
+i.e. when NO assignment satisfies the source. -/
+theorem c03_default_solver_logic_partial {solver : LinModel (Ext K) → MlpOutcome (Ext K)}
+    {m : Model (Ext K)} {t : K} (ht : 0 ≤ t) {maxSteps : Nat} {lm : LinModel (Ext K)}
+    (h : Compile.linearize m (.fin t) maxSteps = .ok lm)
+    (hm : LogicModel m m.domain) (hsh : AssertShape m) (hok : DeclOK m.domain)
+    (ht1 : t < 1 ∨ NoIntegerVars m.domain)
+    {asg : List (List (String × K))} (ha : assignments m.domain = some asg)
+    (hspec : SolverSpec lm (solver lm)) :
+    (∀ sol, oneShot solver m t maxSteps = .ok sol → sol.status = .optimal →
+      srcFeasible m (assignmentOf sol) = true ∧
+      (m.optType ≠ .satisfy → ∃ v w, refSolve m = .optimal v w ∧ sol.value = .fin v) ∧
+      (m.optType = .satisfy → ∃ w, refSolve m = .feasibleAny w)) ∧
+    (oneShot solver m t maxSteps = .err "Infeasible" →
+      refSolve m = .infeasible ∧ ∀ ρ : String → K, srcFeasible m ρ = false) := by
+  rw [oneShot_ok h]
+  obtain ⟨hinf, hopt⟩ := c03_answer_matches_reference_logic_partial ht h hm hsh hok ht1 ha
+  refine ⟨fun sol hsol hst => ?_, fun herr => ?_⟩
+  · obtain ⟨ho, w, hw, hobj⟩ := hspec.optimal sol hsol hst
+    refine ⟨src_of_lin (compilesTo_of_compile_logic ht h hm hsh hok ht1) ho.feasible, fun hne => ?_,
+      (hopt _ ho).2⟩
+    obtain ⟨v, wit, hr, hv⟩ := (hopt _ ho).1 hne
+    rw [hobj] at hv; cases hv
+    exact ⟨w, wit, hr, hw⟩
+  · have hi := hspec.infeasible herr
+    exact ⟨hinf hi, (c03_compile_infeasible_logic_partial ht h hm hsh hok ht1).mp hi⟩
+
+/-- the piecewise-linear fragment as a special case. -/
+theorem c03_default_solver_partial {solver : LinModel (Ext K) → MlpOutcome (Ext K)}
+    {m : Model (Ext K)} {t : K} (ht : 0 ≤ t) {maxSteps : Nat} {lm : LinModel (Ext K)}
+    (h : Compile.linearize m (.fin t) maxSteps = .ok lm)
+    (hm : FragModel true m m.domain) (hok : DeclOK m.domain)
+    (ht1 : t < 1 ∨ NoIntegerVars m.domain)
+    {asg : List (List (String × K))} (ha : assignments m.domain = some asg)
+    (hspec : SolverSpec lm (solver lm)) :
+    (∀ sol, oneShot solver m t maxSteps = .ok sol → sol.status = .optimal →
+      srcFeasible m (assignmentOf sol) = true ∧
+      (m.optType ≠ .satisfy → ∃ v w, refSolve m = .optimal v w ∧ sol.value = .fin v) ∧
+      (m.optType = .satisfy → ∃ w, refSolve m = .feasibleAny w)) ∧
+    (oneShot solver m t maxSteps = .err "Infeasible" →
+      refSolve m = .infeasible ∧ ∀ ρ : String → K, srcFeasible m ρ = false) :=
+  c03_default_solver_logic_partial ht h (LogicModel.ofFragModel hm) (assertShape_of_fragModel hm) hok ht1 ha hspec
+
+/-- non-vacuity (`K = ℚ`, every tolerance `t ≥ 0`, step limit 0): `min x s.t. c: x ≤ y`, `x, y` Boolean.  The pipeline
+returns the concrete `lmBool`; for the solver answer `outBool` the assumption `SolverSpec` HOLDS (`solverSpec_lmBool`),
+rooc hands back `solBool`, and the theorem concludes: that solution satisfies the source and its value `0` is the optimum
+the reference interpreter computes. -/
+example (t : ℚ) (ht : 0 ≤ t) :
+    oneShot (fun _ => outBool) (exBool : Model (Ext ℚ)) t 0 = .ok solBool ∧
+    srcFeasible (exBool : Model (Ext ℚ)) (assignmentOf solBool) = true ∧
+    ∃ w, refSolve (exBool : Model (Ext ℚ)) = .optimal 0 w := by
+  have hc := exBool_compile0 (K := ℚ) (.fin t)
+  have hone : oneShot (fun _ => outBool) (exBool : Model (Ext ℚ)) t 0 = .ok solBool := by
+    rw [oneShot_ok hc]; exact wrapAuto_lmBool
+  obtain ⟨hsol, _⟩ := c03_default_solver_partial (solver := fun _ => outBool) ht hc exBool_frag exBool_declOK
+    (Or.inr exBool_noInt)
+    (asg := [[("x", 0), ("y", 0)], [("x", 1), ("y", 0)], [("x", 0), ("y", 1)], [("x", 1), ("y", 1)]])
+    (by rw [fieldExact_rat]; decide +kernel) solverSpec_lmBool
+  obtain ⟨hs, hv, _⟩ := hsol solBool hone rfl
+  obtain ⟨v, w, hr, hval⟩ := hv (by simp [Compose.exBool])
+  have : v = 0 := by simpa [solBool] using hval.symm
+  subst this
+  exact ⟨hone, hs, w, hr⟩
+
+end DefaultSolver
 end Composition
 
 end Rooc.Props.C03
